@@ -40,6 +40,10 @@ pub enum Kind {
     /// a raw row with an arbitrary combination of selectors (several gate
     /// families at once) on arbitrary values
     RandomRaw { sel: Vec<Fe>, mask: u16, vals: [Fe; 4], next: [Fe; 4], pi: Option<Fe> },
+    /// a raw family row on which TWO components are violated with residuals
+    /// that cancel (r_i + r_j = 0): defeats a prover that weighs two
+    /// components with the same separation power
+    Compensated { fam: u8, i: u8, j: u8, sel_val: Fe, xor: bool, r: Vec<Fe> },
     /// residuals on m adjacent public-input rows chosen so that the
     /// remainder polynomial has degree < n - d (its top d coefficients vanish):
     /// defeats any detection rule that inspects only the top coefficients
@@ -89,6 +93,8 @@ fn kind_strategy() -> BoxedStrategy<Kind> {
             proptest::option::of(fe_any()),
         )
             .prop_map(|(sel, mask, vals, next, pi)| Kind::RandomRaw { sel, mask, vals, next, pi }),
+        4 => (1u8..5, 0u8..5, 0u8..5, prop_oneof![Just(Fe(F::one())), Just(Fe(-F::one())), fe_nonzero()], any::<bool>(), proptest::collection::vec(fe_random(), 12))
+            .prop_map(|(fam, i, j, sel_val, xor, r)| Kind::Compensated { fam, i, j, sel_val, xor, r }),
         3 => (2u8..9, 1u8..8, proptest::collection::vec(fe_nonzero(), 8))
             .prop_map(|(m, d, deltas)| Kind::Structured { m, d: d.min(m - 1), deltas }),
         2 => (fe_any(), fe_any()).prop_map(|(a, b)| Kind::Drift { a, b }),
@@ -356,6 +362,156 @@ pub fn family_row(
     (sel, vals, next, pi)
 }
 
+/// field element f with delta(f) = target, if one exists:
+/// delta(f) = u (u + 2) with u = f^2 - 3 f
+fn delta_preimage(target: &F) -> Option<F> {
+    use ff::Field;
+    let one = F::one();
+    let s1: Option<F> = (one + target).sqrt().into();
+    let s1 = s1?;
+    for u in [-one + s1, -one - s1] {
+        let disc = F::from(9u64) + F::from(4u64) * u;
+        let s2: Option<F> = disc.sqrt().into();
+        if let Some(s2) = s2 {
+            let f = (F::from(3u64) + s2) * F::from(2u64).invert().unwrap();
+            if spec::delta(f) == *target {
+                return Some(f);
+            }
+        }
+    }
+    None
+}
+
+/// A raw row of a family on which components i and j carry residuals
+/// (r, -r), r != 0, and every other component is satisfied.
+pub fn compensated_row(fam: u8, i: u8, j: u8, sel_val: F, xor: bool, r: &[F]) -> Option<([F; 11], [F; 4], [F; 4])> {
+    let n = comp_count(fam);
+    let (i, j) = ((i % n) as usize, (j % n) as usize);
+    if i == j {
+        return None;
+    }
+    let (sel, _, _, _) = family_row(fam, sel_val, None, false, false, xor, r);
+    let rv = |vals: &[F; 4], next: &[F; 4]| spec::RowVals { a: vals[0], b: vals[1], c: vals[2], d: vals[3], a_n: next[0], b_n: next[1], d_n: next[3] };
+    let four = F::from(4u64);
+    let one = F::one();
+    let mut sel = sel;
+    let vals: [F; 4];
+    let next: [F; 4];
+    match fam {
+        1 => {
+            // quads q_i, q_j with delta(q_i) + delta(q_j) = 0, both non-digits
+            let mut qi = F::from(5u64) + F::from(r[8].to_bytes()[0] as u64);
+            let mut qj = None;
+            for _ in 0..40 {
+                if let Some(f) = delta_preimage(&-spec::delta(qi)) {
+                    qj = Some(f);
+                    break;
+                }
+                qi += one;
+            }
+            let qj = qj?;
+            let mut q = [F::from(1u64), F::from(2u64), F::from(0u64), F::from(3u64)];
+            q[i] = qi;
+            q[j] = qj;
+            let d = r[4];
+            let c = four * d + q[0];
+            let b = four * c + q[1];
+            let a = four * b + q[2];
+            vals = [a, b, c, d];
+            next = [r[5], r[6], r[7], four * a + q[3]];
+        }
+        3 => {
+            // digit d outside {-1,0,1}: r0 = d (d-1)(d+1); put -r0 on component j
+            let (i, j) = if i == 0 { (i, j) } else if j == 0 { (j, i) } else { return None };
+            let _ = i;
+            let dg = F::from(2u64) + F::from(r[8].to_bytes()[0] as u64 % 5);
+            let r0 = dg * (dg - one) * (dg + one);
+            let (x_beta, y_beta, q_c) = (sel[spec::Q_L], sel[spec::Q_R], sel[spec::Q_C]);
+            let (a, b, d) = (r[4], r[5], r[6]);
+            let mut c = dg * q_c; // xy_alpha
+            if j == 1 {
+                // bit*q_c - xy_alpha = -r0
+                c = dg * q_c + r0;
+            }
+            let y_alpha = dg.square() * (y_beta - one) + one;
+            let x_alpha = dg * x_beta;
+            let t = c * a * b * dusk_jubjub::EDWARDS_D;
+            let mut a_n = (a * y_alpha + b * x_alpha) * (one + t).invert()?;
+            let mut b_n = (b * y_alpha + a * x_alpha) * (one - t).invert()?;
+            if j == 2 {
+                // (a_n + a_n t) - rhs = -r0
+                a_n = (a * y_alpha + b * x_alpha - r0) * (one + t).invert()?;
+            }
+            if j == 3 {
+                b_n = (b * y_alpha + a * x_alpha - r0) * (one - t).invert()?;
+            }
+            vals = [a, b, c, d];
+            next = [a_n, b_n, r[7], d + d + dg];
+        }
+        4 => {
+            // x1*y2 wire off by t (component 0 = -t), component j = +t
+            if !(i == 0 || j == 0) {
+                return None;
+            }
+            let j = if i == 0 { j } else { i };
+            let (x1, y1, x2, y2) = (r[0], r[1], r[2], r[3]);
+            let t = r[8] + one;
+            let h = x1 * y2 + t;
+            let y1x2 = y1 * x2;
+            let dd = dusk_jubjub::EDWARDS_D * h * y1x2;
+            let mut x3 = (h + y1x2) * (one + dd).invert()?;
+            let mut y3 = (y1 * y2 + x1 * x2) * (one - dd).invert()?;
+            if j == 1 {
+                x3 = (h + y1x2 - t) * (one + dd).invert()?;
+            } else {
+                y3 = (y1 * y2 + x1 * x2 - t) * (one - dd).invert()?;
+            }
+            vals = [x1, y1, x2, y2];
+            next = [x3, y3, r[4], h];
+        }
+        2 => {
+            // two of the three quad-range components with cancelling deltas;
+            // the selector identity is re-solved through q_c
+            if i > 2 || j > 2 {
+                return None;
+            }
+            let mut qs = [F::from(1u64), F::from(2u64), F::from(3u64)]; // A, B, D
+            let mut qi = F::from(6u64) + F::from(r[8].to_bytes()[0] as u64);
+            let mut qj = None;
+            for _ in 0..40 {
+                if let Some(f) = delta_preimage(&-spec::delta(qi)) {
+                    qj = Some(f);
+                    break;
+                }
+                qi += one;
+            }
+            qs[i] = qi;
+            qs[j] = qj?;
+            let w = qs[0] * qs[1];
+            let e = spec::logic_select(&qs[0], &qs[1], &w, &qs[2], &F::zero());
+            let den = F::from(9u64) * qs[2] - F::from(3u64) * (qs[0] + qs[1]);
+            sel[spec::Q_C] = -e * den.invert()?;
+            let (a, b, d) = (r[2], r[3], r[4]);
+            vals = [a, b, w, d];
+            next = [four * a + qs[0], four * b + qs[1], r[5], four * d + qs[2]];
+        }
+        _ => return None,
+    }
+    // sanity: exactly components i and j are off and cancel
+    let v = rv(&vals, &next);
+    let comps: Vec<F> = match fam {
+        1 => spec::range_components(&v).to_vec(),
+        2 => spec::logic_components(&sel, &v).to_vec(),
+        3 => spec::fixed_components(&sel, &v).to_vec(),
+        _ => spec::var_components(&v).to_vec(),
+    };
+    let nz: Vec<usize> = (0..comps.len()).filter(|k| comps[*k] != F::zero()).collect();
+    if nz.len() != 2 || comps[nz[0]] + comps[nz[1]] != F::zero() {
+        return None;
+    }
+    Some((sel, vals, next))
+}
+
 fn fe4(v: [F; 4]) -> [Fe; 4] {
     [Fe(v[0]), Fe(v[1]), Fe(v[2]), Fe(v[3])]
 }
@@ -438,6 +594,22 @@ fn materialise(c: &Case) -> Result<(Vec<Op>, Vec<Op>, Vec<(usize, F)>, String), 
                 if *with_arith { "+arith" } else { "" }
             );
         }
+        Kind::Compensated { fam, i, j, sel_val, xor, r } => {
+            let rr: Vec<F> = r.iter().map(|x| x.0).collect();
+            let fam = 1 + (fam - 1) % 4;
+            let Some((sel, vals, next)) = compensated_row(fam, *i, *j, sel_val.0, *xor, &rr) else {
+                return Err(Fail::new("skip-compensated", "no compensated pair for this combination"));
+            };
+            compiled.push(Op::Raw {
+                sel: sel.iter().map(|x| Fe(*x)).collect(),
+                vals: fe4(vals),
+                next: Some(fe4(next)),
+                pi: Pi::None,
+            });
+            compiled.extend(c.post.clone());
+            instance = compiled.clone();
+            class = format!("family {} two components with cancelling residuals", FAM_NAMES[fam as usize]);
+        }
         Kind::Structured { m, .. } => {
             compiled.extend(c.post.clone());
             for i in 0..*m {
@@ -501,7 +673,14 @@ fn materialise(c: &Case) -> Result<(Vec<Op>, Vec<Op>, Vec<(usize, F)>, String), 
 }
 
 fn check(ctx: &Ctx, c: &Case) -> PResult {
-    let (compiled_ops, mut instance_ops, overrides, class) = materialise(c)?;
+    let (compiled_ops, mut instance_ops, overrides, class) = match materialise(c) {
+        Ok(x) => x,
+        Err(f) if f.sig == "skip-compensated" => {
+            ctx.excluded("compensated pair not constructible for this (family, i, j)");
+            return Ok(());
+        }
+        Err(f) => return Err(f),
+    };
     let compiled = Arc::new(Program::solved(compiled_ops.clone()));
     let (comp_c, _) = no_panic("honest-build-panic", || prog::build(&compiled))?
         .map_err(|e| Fail::new("honest-build-error", format!("{e:?}")))?;
